@@ -74,6 +74,7 @@ impl Property for C04 {
             real: None,
             note: String::new(),
             decoy_in_cwd: false,
+            echo_mode: false,
         };
         for _ in 0..rng.small(0, 4) {
             let a = gen_arg(rng, false, false);
